@@ -484,6 +484,8 @@ struct Field {
     name: String,
     ty: String,
     pinned: bool,
+    /// Coq term of type `ty` (see [`ty_ast`]).
+    ast: String,
 }
 
 struct TyDef {
@@ -491,7 +493,22 @@ struct TyDef {
     file: String,
     public: bool,
     generics: String,
+    /// Generic type parameters, in order (`["B"; "T"]`).
+    params: Vec<String>,
+    /// Generic lifetime parameters, in order (`["'a"]`).
+    lifetimes: Vec<String>,
     fields: Vec<Field>,
+}
+
+/// Candidate for `guard_methods`: an inherent fn taking its own type by value. Whether the type
+/// is public and whether the return type mentions another crate type is only known at the end.
+struct GuardMethod {
+    ty: String,
+    method: String,
+    param: String,
+    ret: String,
+    /// Identifiers occurring in the return type.
+    ret_idents: Vec<String>,
 }
 
 #[derive(Default)]
@@ -503,6 +520,7 @@ struct Output {
     wrappers: Vec<(String, String, String)>,
     trait_impls: Vec<(String, String)>,
     method_bounds: Vec<(String, String, Vec<String>)>,
+    guard_methods: Vec<GuardMethod>,
     warnings: Vec<String>,
 }
 
@@ -699,7 +717,46 @@ fn generics_text(g: &Generics) -> String {
     }
 }
 
-fn fields_of(fields: &Fields, prefix: &str) -> Vec<Field> {
+fn type_params(g: &Generics) -> Vec<String> {
+    g.type_params().map(|p| p.ident.to_string()).collect()
+}
+
+/// Structured form of a type as a Coq term of the inductive `ty` of Markers.v. `params` are the
+/// generic type parameters of the enclosing item. Lifetimes are dropped. With `atom`, the term is
+/// parenthesised so that it can be used as a constructor argument.
+fn ty_ast(ty: &Type, params: &[String], atom: bool) -> String {
+    let list = |tys: Vec<&Type>| coq_list(&tys.into_iter().map(|t| ty_ast(t, params, false)).collect::<Vec<_>>());
+    let term = match ty {
+        Type::Paren(p) => return ty_ast(&p.elem, params, atom),
+        Type::Group(g) => return ty_ast(&g.elem, params, atom),
+        Type::Reference(r) => format!("TRef {} {}", r.mutability.is_some(), ty_ast(&r.elem, params, true)),
+        Type::Ptr(p) => format!("TPtr {} {}", p.mutability.is_some(), ty_ast(&p.elem, params, true)),
+        Type::Tuple(t) => format!("TTuple {}", list(t.elems.iter().collect())),
+        Type::Path(p) if p.qself.is_none() => {
+            let segs = &p.path.segments;
+            let first = segs[0].ident.to_string();
+            let last = segs.last().unwrap();
+            match &last.arguments {
+                syn::PathArguments::None if segs.len() == 1 && params.contains(&first) => format!("TParam {}", q(&first)),
+                // `T::Output`, `Self::Item`: projections are not path types of the crate.
+                _ if segs.len() > 1 && (params.contains(&first) || first == "Self") => format!("TOther {}", q(&compact(ty))),
+                syn::PathArguments::Parenthesized(_) => format!("TOther {}", q(&compact(ty))),
+                syn::PathArguments::None => format!("TApp {} []", q(&last.ident.to_string())),
+                syn::PathArguments::AngleBracketed(a) => {
+                    let args = a.args.iter().filter_map(|g| match g {
+                        syn::GenericArgument::Type(t) => Some(t),
+                        _ => None, // lifetimes, const arguments, associated-type bindings
+                    });
+                    format!("TApp {} {}", q(&last.ident.to_string()), list(args.collect()))
+                }
+            }
+        }
+        other => format!("TOther {}", q(&compact(other))),
+    };
+    if atom { format!("({})", term) } else { term }
+}
+
+fn fields_of(fields: &Fields, prefix: &str, params: &[String]) -> Vec<Field> {
     fields
         .iter()
         .enumerate()
@@ -707,8 +764,30 @@ fn fields_of(fields: &Fields, prefix: &str) -> Vec<Field> {
             name: format!("{}{}", prefix, f.ident.as_ref().map_or(i.to_string(), |id| id.to_string())),
             ty: compact(&f.ty),
             pinned: f.attrs.iter().any(|a| a.path().is_ident("pin")),
+            ast: ty_ast(&f.ty, params, true),
         })
         .collect()
+}
+
+/// All identifiers of a token stream, at any depth.
+fn idents_in(ts: TokenStream, out: &mut Vec<String>) {
+    for t in ts {
+        match t {
+            TokenTree::Group(g) => idents_in(g.stream(), out),
+            t => out.extend(ident_of(&t)),
+        }
+    }
+}
+
+/// If the first parameter of `sig` takes `self_ty` by value (`self`, `x: Self`, `x: SelfTy<..>`),
+/// its normalised type text (`Self` for a plain `self`).
+fn by_value_self_param(sig: &syn::Signature, self_ty: &str) -> Option<String> {
+    let own = |ty: &Type| matches!(ty, Type::Path(p) if p.qself.is_none() && { let id = type_ident(ty); id == "Self" || id == self_ty });
+    match sig.inputs.first()? {
+        syn::FnArg::Receiver(r) if r.reference.is_none() && own(&r.ty) => Some(if r.colon_token.is_some() { compact(&r.ty) } else { "Self".to_string() }),
+        syn::FnArg::Typed(t) if own(&t.ty) => Some(compact(&t.ty)),
+        _ => None,
+    }
 }
 
 /// Per-file context.
@@ -744,11 +823,27 @@ impl Cx<'_> {
         if let (Some(t), false) = (self_ty, bounds.is_empty()) {
             self.out.method_bounds.push((t.to_string(), sig.ident.to_string(), bounds));
         }
+        if let (Some(t), syn::ReturnType::Type(_, ret)) = (self_ty, &sig.output) {
+            if let Some(param) = by_value_self_param(sig, t) {
+                let mut ret_idents = Vec::new();
+                idents_in(ret.to_token_stream(), &mut ret_idents);
+                self.out.guard_methods.push(GuardMethod { ty: t.to_string(), method: sig.ident.to_string(), param, ret: compact(ret), ret_idents });
+            }
+        }
         self.function_like(self.qualified(self_ty, &sig.ident), block.to_token_stream(), true, |v| v.visit_block(block));
     }
 
-    fn type_def(&mut self, name: &syn::Ident, public: bool, generics: String, fields: Vec<Field>) {
-        self.out.types.push(TyDef { name: name.to_string(), file: self.module.clone(), public, generics, fields });
+    fn type_def(&mut self, name: &syn::Ident, public: bool, g: &Generics, fields: Vec<Field>) {
+        let lifetimes = g.lifetimes().map(|l| l.lifetime.to_string()).collect();
+        self.out.types.push(TyDef {
+            name: name.to_string(),
+            file: self.module.clone(),
+            public,
+            generics: generics_text(g),
+            params: type_params(g),
+            lifetimes,
+            fields,
+        });
     }
 
     fn items(&mut self, items: &[Item]) {
@@ -760,10 +855,11 @@ impl Cx<'_> {
         match it {
             Item::Fn(f) => self.function(None, &f.sig, &f.block),
             Item::Impl(i) => self.impl_block(i),
-            Item::Struct(s) => self.type_def(&s.ident, is_pub(&s.vis), generics_text(&s.generics), fields_of(&s.fields, "")),
+            Item::Struct(s) => self.type_def(&s.ident, is_pub(&s.vis), &s.generics, fields_of(&s.fields, "", &type_params(&s.generics))),
             Item::Enum(e) => {
-                let fields = e.variants.iter().flat_map(|v| fields_of(&v.fields, &format!("{}.", v.ident))).collect();
-                self.type_def(&e.ident, is_pub(&e.vis), generics_text(&e.generics), fields);
+                let params = type_params(&e.generics);
+                let fields = e.variants.iter().flat_map(|v| fields_of(&v.fields, &format!("{}.", v.ident), &params)).collect();
+                self.type_def(&e.ident, is_pub(&e.vis), &e.generics, fields);
             }
             Item::Trait(t) => {
                 for ti in &t.items {
@@ -826,8 +922,9 @@ impl Cx<'_> {
             },
             "easy_wrapper" => match parse_easy_wrapper(ts) {
                 Ok((wrapper, generics, inner, output)) => {
-                    let field = Field { name: "_inner".into(), ty: compact(&inner), pinned: true };
-                    self.type_def(&wrapper, true, generics_text(&generics), vec![field]);
+                    let ast = ty_ast(&inner, &type_params(&generics), true);
+                    let field = Field { name: "_inner".into(), ty: compact(&inner), pinned: true, ast };
+                    self.type_def(&wrapper, true, &generics, vec![field]);
                     self.out.wrappers.push((wrapper.to_string(), type_ident(&inner), type_ident(&output)));
                 }
                 Err(_) => self.opaque_macro(&name, ts, self_ty),
@@ -940,14 +1037,15 @@ fn render_markers(out: &Output) -> String {
         .map(|m| format!("{}\n  mkMarker {} {} {} {}", comment(&m.source), q(&m.tr), q(&m.ty), qlist(&m.bounds), q(&m.file)))
         .collect();
     writeln!(s, "Definition markers : list marker := {}.", coq_block(&markers)).unwrap();
-    s.push_str("Record field := mkField { fd_name : string; fd_ty : string; fd_pinned : bool }.\n");
-    s.push_str("Record tydef := mkTy { t_name : string; t_file : string; t_public : bool; t_generics : string; t_fields : list field }.\n");
+    s.push_str("Inductive ty :=\n| TParam (name : string)\n| TApp (name : string) (args : list ty)\n| TRef (mutable : bool) (t : ty)\n| TPtr (mutable : bool) (t : ty)\n| TTuple (l : list ty)\n| TOther (s : string).\n");
+    s.push_str("Record field := mkField { fd_name : string; fd_ty : string; fd_pinned : bool; fd_ast : ty }.\n");
+    s.push_str("Record tydef := mkTy { t_name : string; t_file : string; t_public : bool; t_generics : string; t_params : list string; t_lifetimes : list string; t_fields : list field }.\n");
     let types: Vec<String> = out
         .types
         .iter()
         .map(|t| {
-            let fields: Vec<String> = t.fields.iter().map(|f| format!("mkField {} {} {}", q(&f.name), q(&f.ty), f.pinned)).collect();
-            format!("mkTy {} {} {} {} {}", q(&t.name), q(&t.file), t.public, q(&t.generics), coq_list(&fields))
+            let fields: Vec<String> = t.fields.iter().map(|f| format!("mkField {} {} {} {}", q(&f.name), q(&f.ty), f.pinned, f.ast)).collect();
+            format!("mkTy {} {} {} {} {} {} {}", q(&t.name), q(&t.file), t.public, q(&t.generics), qlist(&t.params), qlist(&t.lifetimes), coq_list(&fields))
         })
         .collect();
     writeln!(s, "Definition types : list tydef := {}.", coq_block(&types)).unwrap();
@@ -957,6 +1055,16 @@ fn render_markers(out: &Output) -> String {
     writeln!(s, "Definition trait_impls : list (string * string) := {}.", coq_block(&impls)).unwrap();
     let bounds: Vec<String> = out.method_bounds.iter().map(|(a, b, c)| format!("({}, {}, {})", q(a), q(b), qlist(c))).collect();
     writeln!(s, "Definition method_bounds : list (string * string * list string) := {}.", coq_list(&bounds)).unwrap();
+    // Inherent fns of public types that consume the type and return another type of the crate.
+    let is_public = |name: &str| out.types.iter().any(|t| t.public && t.name == name);
+    let is_crate_type = |name: &str| out.types.iter().any(|t| t.name == name);
+    let guards: Vec<String> = out
+        .guard_methods
+        .iter()
+        .filter(|g| is_public(&g.ty) && g.ret_idents.iter().any(|i| *i != g.ty && is_crate_type(i)))
+        .map(|g| format!("({}, {}, {}, {})", q(&g.ty), q(&g.method), q(&g.param), q(&g.ret)))
+        .collect();
+    writeln!(s, "Definition guard_methods : list (string * string * string * string) := {}.", coq_block(&guards)).unwrap();
     s
 }
 
